@@ -155,14 +155,15 @@ class FuncCtx:
                 k += 1
         return alts
 
-    def sources(self, node, expr, depth=0, seen=None):
-        """follow plain name copies back to terminals"""
+    def sources(self, node, expr, depth=0, seen=None, live=None):
+        """follow plain name copies back to terminals. live: optional set of CFG node ids of this function - bindings made at other
+        nodes are ignored (provenance under a valuation: pass the nodes reachable under it)"""
         seen = seen if seen is not None else set()
         alts = self._alternatives(expr)
         if len(alts) > 1:
             out = []
             for a_ in alts:
-                out += self.sources(node, a_, depth, seen)
+                out += self.sources(node, a_, depth, seen, live)
             return out
         if isinstance(expr, ast.Name):
             ds = self.defs(node, expr.id)
@@ -173,11 +174,13 @@ class FuncCtx:
                 key = (id(cx), dn.id, expr.id)
                 if key in seen or depth > 10:
                     continue
+                if live is not None and cx is self and isinstance(v, ast.AST) and dn.id not in live:
+                    continue
                 seen.add(key)
                 if isinstance(v, ast.AST):
                     for a_ in self._alternatives(v):
                         if isinstance(a_, ast.Name):
-                            out += cx.sources(dn, a_, depth + 1, seen)
+                            out += cx.sources(dn, a_, depth + 1, seen, live if cx is self else None)
                         else:
                             out.append(Src('expr', a_, cx, dn))
                 elif isinstance(v, tuple):
